@@ -1,8 +1,8 @@
 SPECIFICATION Spec
 CONSTANT MaxCalls = 3
 CONSTANT MaxPerPeer = 2
-CONSTANT KindSet = {"NowOk", "NowDecl", "NowUndecl", "LaterOk", "LaterDecl", "LaterUndecl", "Never"}
-CONSTANT QC = {TRUE, FALSE}
+CONSTANT KindSet = {"NowOk", "NowUndecl", "LaterOk", "LaterDecl", "Never"}
+CONSTANT QC = {TRUE}
 VIEW View
 INVARIANT ExactlyOnce
 INVARIANT OwnResult
